@@ -75,6 +75,8 @@ func (p *FullIntraRequest) Unmarshal(rawPacket []byte) error {
 
 	p.SenderSSRC = binary.BigEndian.Uint32(rawPacket[headerLength:])
 	p.MediaSSRC = binary.BigEndian.Uint32(rawPacket[headerLength+ssrcLength:])
+	// entries left over from an earlier Unmarshal into the same value are not part of this packet
+	p.FIR = nil
 	for i := headerLength + firOffset; i < (headerLength + length); i += 8 {
 		p.FIR = append(p.FIR, FIREntry{
 			binary.BigEndian.Uint32(rawPacket[i:]),
